@@ -76,7 +76,10 @@ OUT = "OUT"
 
 # real geometries: (name, fine cellsize, fine origin in h units (fx, fy), dyadic)
 GEOMS = [("unit", 1.0, (0, 0), True), ("dyadic-shifted", 0.25, (-7, 2001), True),
-         ("large", 1024.0, (40, -12), True), ("tenth", 0.1, (3, -5), False)]
+         ("large", 1024.0, (40, -12), True), ("tenth", 0.1, (3, -5), False),
+         # cells of about 3 arc-seconds at longitude 145 / latitude -37: origin / cellsize ~ 1.5e5 (a relative
+         # tolerance on the corner coordinates is then wider than a cell)
+         ("arcsec", 2.0 ** -10, (296960, -75776), True)]
 SEED_GEOMS = [("seed0", 2.0, (-33, 17), True), ("seed1", 0.5, (1001, -999), True),
               ("seed2", 8.0, (5, 5), True), ("seed3", 0.125, (-64, 64), True)]
 
@@ -512,7 +515,7 @@ def ms(tier):
 
 SCAN_SETS3 = [list(range(9)), [4], [0, 8], [0, 1, 2, 5, 8], [1, 3, 5, 7], [2, 4, 6]]
 DIMS3 = [(1, 1), (2, 3)]
-DIMS_SCAN = [(1, 1), (1, 2), (2, 1), (2, 2), (3, 2)]
+DIMS_SCAN = [(1, 1), (1, 2), (2, 1), (2, 2), (3, 2), (3, 3)]
 DIMS_BIG = [(1, 1), (2, 2), (3, 4), (4, 3)]
 
 V_ALL = list(range(-2, 9))                 # half-cell lattice of a 3x3 grid extended one cell outside
